@@ -170,13 +170,13 @@ def run(chk: Check) -> None:
                 other[k]["switchpoints"] = donor[k]["switchpoints"]
             if other != inner:
                 outer_b = {"zone_idx": outer["zone_idx"], "schedule": other}
-                _edited(chk, S, rnd, zone, outer, frags, outer_b, S.full_sched_to_fragz(outer_b))
+                _edited(chk, D, S, rnd, zone, outer, frags, outer_b, S.full_sched_to_fragz(outer_b))
         if h < 2:
             chk.sample({"schedule": show_sched(outer)[:200], "fragments": [len(f) // 2 for f in frags]})
     D.run()
 
 
-def _edited(chk, S, rnd, zone, sched_a, frags_a, sched_b, frags_b) -> None:
+def _edited(chk, D, S, rnd, zone, sched_a, frags_a, sched_b, frags_b) -> None:
     """A Schedule holds version a (received in full); then version b's packets arrive - every fragment, twice over, in
     any order.  What is received is b and only b: the object reports b (through the passive path, `_handle_msg`)."""
     tcs = SimpleNamespace(zone_lock_idx=None)
@@ -197,15 +197,32 @@ def _edited(chk, S, rnd, zone, sched_a, frags_a, sched_b, frags_b) -> None:
         seq += [("b", i) for i in order]
     rep = {"op": "reassembly.edited", "zone": zone, "a": show_sched(sched_a), "b": show_sched(sched_b), "frags_a": frags_a, "frags_b": frags_b, "seq": seq}
     held = None
+    evs, states = [], []
     for n, (which, i) in enumerate(seq):
+        frags = frags_a if which == "a" else frags_b
         try:
-            sch._handle_msg(msg(frags_a if which == "a" else frags_b, i))
+            sch._handle_msg(msg(frags, i))
         except Exception as e:  # noqa: BLE001
             chk.violation(f"reassembly.edited.raise:{type(e).__name__}", f"feeding fragment {which}{i} raised {e!r}", rep)
             return
         chk.evaluations += 1
         if n + 1 == len(frags_a):
             held = S_show(sch._full_schedule) if sch._full_schedule else "-"
+        evs.append(f"{i}/{len(frags)}/{frags[i - 1]}")
+        slots = ",".join("-" if x is None else f"{x['frag_number']}/{x['total_frags']}/{x['fragment']}" for x in sch._payload_set)
+        states.append(slots + "=>" + (S_show(sch._full_schedule) if sch._full_schedule else "-"))
+    # the model of the same object (Model/Sched.lean feedMsg; theorem C17E.edited_two_passes), zlib by table
+    if len(frags_a) != len(frags_b) or len(frags_a) <= 5:
+        combos = [tuple(frags_a), tuple(frags_b)] if len(frags_a) != len(frags_b) else list(itertools.product(*zip(frags_a, frags_b)))
+        table = {}
+        for combo in combos:
+            joined = "".join(combo)
+            try:
+                table[joined] = zlib.decompress(bytes.fromhex(joined)).hex().upper()
+            except zlib.error:
+                table[joined] = "bad"
+        D.add("sched.feed", [";".join(f"{k}={v}" for k, v in table.items()), ";".join(evs)], "ok\t" + "|".join(states))
+        chk.count("edited.compared_with_model")
     got = S_show(sch._full_schedule) if sch._full_schedule else "-"
     if held != S_show(sched_a):
         chk.violation("reassembly.edited.first", f"after one complete pass the schedule held is {held[:100]}", rep)
